@@ -2,6 +2,7 @@
    every region a model function returns lies inside the buffer and is aligned as requested,
    and none of these functions faults (no panic, no out-of-fuel) for any arguments. *)
 From PV.Model Require Import Machine Mapping Views Headers.
+From PV.gen Require Import Layout.
 From PV.Spec Require Import SafetySpec.
 From PV.Proofs Require Import BaseProofs ViewsProofs.
 Ltac Zify.zify_post_hook ::= Z.div_mod_to_equations.
@@ -257,4 +258,14 @@ Proof.
   pose proof (validate_no_fault fmt64 m) as H64. pose proof (validate_no_fault fmt32 m) as H32.
   destruct (validate fmt64 m) as [x|e|h]; [discriminate| |exfalso; exact (H64 h eq_refl)].
   destruct e; try discriminate; destruct (validate fmt32 m) as [y|e2|h2]; try discriminate; exfalso; exact (H32 h2 eq_refl).
+Qed.
+
+(* pe.rs:471 rich_structure and headers.rs:32 check_sum reinterpret the image as len/4 dwords at offset 0:
+   after the validation gate the buffer address is a multiple of 4 and the dword view ends inside the buffer *)
+Theorem dword_view_safe f m soi : validate f m = Ok soi ->
+  (m_addr m + 0) mod 4 = 0 /\ 0 + 4 * (m_len m / 4) <= m_len m.
+Proof.
+  unfold validate. destruct (m_len m <? IMAGE_DOS_HEADER_size); [discriminate|].
+  destruct (aligned_to 4 (m_addr m)) eqn:Ea; cbn [negb]; [|discriminate]. intros _.
+  apply aligned_to_spec in Ea. split; [rewrite N.add_0_r; exact Ea|lia].
 Qed.
